@@ -91,7 +91,11 @@ func buildBreaker(c brCfg, rec *brRec) circuitbreaker.CircuitBreaker[string] {
 			b = b.WithSuccessThresholdRatio(c.Sthr, c.Scap)
 		}
 	}
-	b = b.WithDelay(time.Duration(c.Delay) * u)
+	if c.Delay >= 2000000000 {
+		b = b.WithDelay(time.Duration(1<<63 - 1)) // effectively forever
+	} else {
+		b = b.WithDelay(time.Duration(c.Delay) * u)
+	}
 	if rec != nil {
 		b = b.WithDelayFunc(func(exec failsafe.ExecutionAttempt[string]) time.Duration {
 			rec.dfCalls++
@@ -180,7 +184,11 @@ func replayBreaker(c brCfg, steps []brStep) (mis string, step int, nontrivial bo
 		if ret != s.Obs.Ret {
 			return fmt.Sprintf("TryAcquirePermit: want %s got %s", s.Obs.Ret, ret), i, nontrivial
 		}
-		if rem := cb.RemainingDelay(); rem != time.Duration(s.Obs.Rem)*u {
+		if rem := cb.RemainingDelay(); s.Obs.Rem >= 1000000000 {
+			if rem <= time.Duration(1<<62) {
+				return fmt.Sprintf("RemainingDelay: got %v for a breaker that is open forever (spec rem %d)", rem, s.Obs.Rem), i, nontrivial
+			}
+		} else if rem != time.Duration(s.Obs.Rem)*u {
 			return fmt.Sprintf("RemainingDelay: want %v got %v", time.Duration(s.Obs.Rem)*u, rem), i, nontrivial
 		}
 		if m := metricsOf(cb.Metrics()); !reflect.DeepEqual(m, s.Obs.M) {
